@@ -38,11 +38,13 @@ PROPS = {
                 kani=dict(files=['ownership_harness.rs', 'storages_harness.rs'], quick=['own_vec', 'own_dense', 'own_null', 'dense_clean'], thorough=['own_drain'], timeout=3000)),
     'C12': dict(units=['flagged', 'flagged_ec', 'join'], witness='storage',
                 assumptions=STORAGE_ASSUME + ["shrev::EventChannel::single_write appends one event and a reader registered earlier receives appended events in order (assumed contract on shrev)",
-                                              "FlaggedStorage::shared_get_mut (raw pointer into the channel, used only by parallel joins) is excluded",
+                                              "FlaggedStorage::shared_get_mut (the shared-access path of non-lending and parallel joins) is verified under the N3 sequentialisation: `&self` -> `&mut self`, the channel cell's get() + `&mut *ptr` -> get_mut(), the inner storage's shared_get_mut -> its get_mut",
                                               "bulk clear() emits nothing by design (stated in the property)",
                                               "both cfg variants of the storage-event-control feature are extracted and verified (units flagged / flagged_ec)"]),
-    'C13': dict(units=['join'], witness='storage', assumptions=[HEADROOM] + STORAGE_ASSUME + ["parallel / SharedGetOnly variants are not covered (N3)"]),
-    'C06': dict(units=['join'], witness='storage',
+    'C13': dict(units=['join', 'flagged', 'flagged_ec', 'kinds', 'veckinds'], witness='storage',
+                # "a modification event is emitted only for the items that were actually fetched mutably": what a mutable fetch emits is the wrapper's contract
+                also=[r'^flagged(_ec)?::(FlaggedStorage|DerefFlaggedStorage|FlaggedAccessMut)::(get|get_mut|shared_get_mut|deref|deref_mut)::'], assumptions=[HEADROOM] + STORAGE_ASSUME + ["parallel / SharedGetOnly variants are not covered (N3)"]),
+    'C06': dict(units=['join', 'kinds', 'veckinds'], witness='storage',
                 # the items of a restricted join are the paired accessors: "a mutation made through an item is visible afterwards on that entity and on no other"
                 also=[r'^join::PairedStorage\w+::'],
                 assumptions=[HEADROOM] + STORAGE_ASSUME + [
